@@ -163,6 +163,7 @@ pub struct ExecSummary {
     pub mode: String,
     pub pool: usize,
     pub harness_violations: Vec<String>,
+    pub faulted_dispatches: usize,
 }
 
 fn add_stats(a: &mut EStats, b: &EStats) {
@@ -200,13 +201,26 @@ pub fn panic_finding(msg: &str, mode: &str) -> Finding {
 
 /// Executes `ndisp` monitored dispatches of `inst` in a synchronous mode.
 pub fn exec_sync(inst: &mut Inst, m: DMode, dp: &DriverPlan, ndisp: usize, pool_ok: bool, sum: &mut ExecSummary) {
+    exec_sync_with_fault(inst, m, dp, ndisp, pool_ok, None, sum)
+}
+
+/// Like `exec_sync`; `fault = Some(uid)` makes that system panic in the first dispatch (the caller
+/// catches it): ordering and isolation must hold in a dispatch that is cut short, too.
+pub fn exec_sync_with_fault(inst: &mut Inst, m: DMode, dp: &DriverPlan, ndisp: usize, pool_ok: bool, fault: Option<u32>, sum: &mut ExecSummary) {
     sum.mode = m.name().to_string();
     sum.pool = inst.pool_size;
     for di in 0..ndisp {
         let ctx = inst.ctx.clone();
+        let faulty = di == 0 && fault.is_some();
+        if let (true, Some(v)) = (faulty, fault) {
+            ctx.inject[v as usize].store(INJ_PANIC_RUN, SeqCst);
+        }
         let mut hold: Option<Arc<Hold>> = None;
         let mut ov: Option<Arc<Overlap>> = None;
         let mut sc: Option<Arc<Script>> = None;
+        // a parked system would wait in vain for systems that never run after the panic
+        let jit = DriverPlan::Jitter(di as u64 + 991, 0);
+        let dp = if faulty && matches!(dp, DriverPlan::Hold(_)) { &jit } else { dp };
         let driver: Arc<dyn Driver> = match dp {
             DriverPlan::Free => Arc::new(Free),
             DriverPlan::Jitter(s, lvl) => Arc::new(Jitter { seed: mix(*s, di as u64), level: *lvl }),
@@ -232,16 +246,26 @@ pub fn exec_sync(inst: &mut Inst, m: DMode, dp: &DriverPlan, ndisp: usize, pool_
         sum.driver = driver.name();
         let out = inst.run(m, driver);
         sum.dispatches += 1;
+        if let (true, Some(v)) = (faulty, fault) {
+            ctx.inject[v as usize].store(INJ_NONE, SeqCst);
+            let _ = crate::sys::take_pool_panics();
+        }
         if out.overflow {
             sum.inconclusive += 1;
             continue;
         }
+        let mut partial = false;
         if let Some(p) = &out.panic {
-            sum.escaped_panics.push(p.clone());
-            sum.findings.push(panic_finding(p, m.name()));
-            continue;
+            if faulty && classify(p) == PanicKind::Injected {
+                partial = true;
+                sum.faulted_dispatches += 1;
+            } else {
+                sum.escaped_panics.push(p.clone());
+                sum.findings.push(panic_finding(p, m.name()));
+                continue;
+            }
         }
-        let opts = EOpts { expect_tl: m.runs_tl(), caller_thread: out.caller, outer_mode: m.outer() , top_mult: 1};
+        let opts = EOpts { expect_tl: m.runs_tl(), caller_thread: out.caller, outer_mode: m.outer(), top_mult: 1, partial };
         let st = e_oracle(&inst.plan, &out.events, &opts, &mut sum.findings);
         sum.order_hashes.push(st.order_hash);
         add_stats(&mut sum.est, &st);
@@ -363,7 +387,7 @@ pub fn exec_async(plan: &Plan, twin: &Layout, pool: &Pool, pool_size: usize, dp:
             continue;
         }
         let evs = ctx.log.since(0);
-        let opts = EOpts { expect_tl: true, caller_thread: caller, outer_mode: "async" , top_mult: 1};
+        let opts = EOpts { expect_tl: true, caller_thread: caller, outer_mode: "async" , top_mult: 1, partial: false};
         let st = e_oracle(plan, &evs, &opts, &mut sum.findings);
         sum.order_hashes.push(st.order_hash);
         add_stats(&mut sum.est, &st);
@@ -604,8 +628,20 @@ pub fn case(prop: &str, up: &'static str, rng: &mut Rng, pools: &mut Pools, rep:
         mode = pick_mode(rng);
         let dp = pick_driver(prop, rng, &inst, mode, pool_ok);
         let ndisp = if tiny() { 2 } else { rng.range(2, 3) };
+        // every sixth executed plan: one system panics in the first dispatch (caught by the caller)
+        let fault = if rng.chance(1, 6) {
+            let mut v = Vec::new();
+            plan.walk(&mut |it, _| {
+                if let Item::Sys(s) = it {
+                    v.push(s.uid)
+                }
+            });
+            if v.is_empty() { None } else { Some(*rng.pick(&v)) }
+        } else {
+            None
+        };
         match mode {
-            RunMode::Sync(m) => exec_sync(&mut inst, m, &dp, ndisp, pool_ok, &mut sum),
+            RunMode::Sync(m) => exec_sync_with_fault(&mut inst, m, &dp, ndisp, pool_ok, fault, &mut sum),
             RunMode::Async => {
                 #[cfg(feature = "parallel")]
                 exec_async(&plan, &inst.layout, &pool, pool_size, &dp, ndisp, pool_ok, &mut sum);
@@ -622,6 +658,7 @@ pub fn case(prop: &str, up: &'static str, rng: &mut Rng, pools: &mut Pools, rep:
         rep.metric("unordered_overlaps_observed", sum.est.unordered_overlaps as i64);
         rep.metric("tl_windows", sum.est.tl_windows as i64);
         rep.metric("inner_epochs", sum.est.inner_epochs as i64);
+        rep.metric("dispatches_cut_short_by_an_injected_panic", sum.faulted_dispatches as i64);
         rep.metric("hold_reached", sum.hold_reached as i64);
         rep.metric("hold_capped", sum.hold_capped as i64);
         rep.metric("overlap_rendezvous_completed", sum.overlap_completed as i64);
